@@ -70,15 +70,16 @@ DefSets == IF Thorough
            THEN Core \o AllOn(Lower, "letters") \o AllOn(Th08N, "th08-names") \o AllPartial({1, 3, 4, 6}, "partial")
                      \o AllPartial(Bits, "partial") \o AllRot \o AllDup
            ELSE Core
-N == Len(DefSets)
 
-\* one root state per definition set (m = -1) holding its flag table, 256 successors (one per mask
-\* byte): the successors of different roots are explored -- and their invariants evaluated -- by
-\* different TLC workers
-VARIABLES i, m, tab
-vars == <<i, m, tab>>
-Init == i \in 1..N /\ m = -1 /\ tab = TableOf(DefSets[i].defs)
-Next == m = -1 /\ m' \in 0..255 /\ UNCHANGED <<i, tab>>
+\* State graph: one root holding the whole family (TLC re-evaluates a definition like DefSets every
+\* time it is mentioned in a state-level formula, so it is mentioned once, here); its successors are
+\* one state per definition set holding that set's flag table; their successors one state per mask
+\* byte.  The last two levels are explored -- and their invariants evaluated -- by all workers.
+VARIABLES lvl, all, i, m, tab
+vars == <<lvl, all, i, m, tab>>
+Init == lvl = 0 /\ all = TLCGet(41) /\ i = 0 /\ m = -1 /\ tab = << >>
+Next == \/ /\ lvl = 0 /\ lvl' = 1 /\ i' \in 1..Len(all) /\ tab' = TableOf(all[i'].defs) /\ all' = << >> /\ m' = -1
+        \/ /\ lvl = 1 /\ lvl' = 2 /\ m' \in 0..255 /\ UNCHANGED <<all, i, tab>>
 Spec == Init /\ [][Next]_vars
 
 S == BitsOf(m)
@@ -105,11 +106,14 @@ SyntaxFacts(T) ==
 \* with a duplicated name no printer of this shape can be inverted: some mask does not come back
 DupIsFatal(T) == THasDuplicateName(T) =>
     \E mm \in 0..255 : TLabelToMask(TPrintLabel(BitsOf(mm), T), T) # Ok(BitsOf(mm))
-Inv == IF m = -1 THEN SyntaxFacts(tab) /\ DupIsFatal(tab)
-       ELSE /\ ByteRoundTrip
-            /\ ~THasDuplicateName(tab) => (PrintRoundTrip(tab) /\ (m % 17 = 0 => Idempotent(tab)))
+Inv == CASE lvl = 0 -> TRUE
+         [] lvl = 1 -> SyntaxFacts(tab) /\ DupIsFatal(tab)
+         [] lvl = 2 -> /\ ByteRoundTrip
+                       /\ ~THasDuplicateName(tab) => (PrintRoundTrip(tab) /\ (m % 17 = 0 => Idempotent(tab)))
 
-ASSUME ndJsonSerialize(IOEnv.OUT, [k \in 1..N |->
-          [id |-> k, fam |-> DefSets[k].fam, defs |-> DefSets[k].defs, dup |-> HasDuplicateName(DefSets[k].defs)]])
-ASSUME PrintT(<<"GEN", "Gen_DiffMask", N>>)
+ASSUME LET DS == DefSets IN
+       /\ TLCSet(41, DS)           \* read once, by Init
+       /\ ndJsonSerialize(IOEnv.OUT, << >> \o [k \in 1..Len(DS) |->
+              [id |-> k, fam |-> DS[k].fam, defs |-> DS[k].defs, dup |-> HasDuplicateName(DS[k].defs)]])
+       /\ PrintT(<<"GEN", "Gen_DiffMask", Len(DS)>>)
 =============================================================================
